@@ -363,3 +363,15 @@ _ADD8 = {
 for _k, (_t, _x) in _ADD8.items():
     CLAIMS[_k]['technique'] += _t
     CLAIMS[_k]['text'] += _x
+_ADD9 = {
+ 'C03': ('; byte coverage of the in-place shift', ' user_bcopy moves every byte of [dest, dest+bytes).'),
+ 'C04': ('; complex magnitude dependence', ' c_abs / c_abs1 / z_abs / z_abs1 return a value that depends on both parts of the argument.'),
+ 'C09': ('; quick-select input filled', ' The scratch array handed to ?qselect is filled for exactly the entries the selection reads.'),
+ 'C10': ('; view header; MMD weight conservation', ' sp_preorder copies nrow / ncol / Dtype / Mtype of A field by field; every absorption in mmd.c zeroes the weight of the absorbed node.'),
+ 'C11': ('; R11 index kinds on ?gsequ / ?laqgs; complex magnitude dependence', ' r[] is indexed below the row count and c[] below the column count; the complex magnitude takes both parts.'),
+ 'C15': ('; quick-select input filled; complex magnitude dependence', ' As in C09 / C04.'),
+ 'C16': ('; header record layout', ' The fixed-column header records of the HB / RB readers are consumed with the field widths the formats define.'),
+}
+for _k, (_t, _x) in _ADD9.items():
+    CLAIMS[_k]['technique'] += _t
+    CLAIMS[_k]['text'] += _x
